@@ -21,13 +21,16 @@ TRUSTED = [
     "Lean 4.33 kernel; axioms ⊆ {propext, Classical.choice, Quot.sound}",
     "'no file/process/network/environment access', 'terminates promptly' and 'only ValueError/SyntaxError' are run-time facts: they rest on the audit tie "
     "(sys.addaudithook + canaries + 5 s limit in a subprocess) over the generated inputs — labelled partial",
-    "the evaluator model covers int/bool/str/list values and + - * // % ** << >>, unary ops, and/or, comparisons, conditionals, f-strings, casts, len/abs/max/min "
-    "(floats, true division and & | ^ are outside the model and exercised only by the audit tie)",
+    "the evaluator model covers int/bool/str/list values and the whole operator table + - * // % ** << >> & | ^ /, unary + - not (unary ~ and @ are unsupported nodes), and/or, "
+    "comparisons, conditionals, f-strings, casts int/bool/str, len/abs/max/min; float VALUES are outside the model: `/` and `**` with a negative exponent answer 'ok float' "
+    "(accepted, value not predicted) after Python's own ZeroDivisionError/OverflowError checks, and the tie compares such an outcome only when the float-producing operation "
+    "is the root of the expression (under unary + - / abs); what the evaluator does with a float inside a larger expression, and the cast float(…), are exercised only by the audit tie",
 ]
 
 # ----------------------------------------------------------------------------------------- (i) evaluator tie
+FLOAT_LIMIT = 2 ** 1024 - 2 ** 970      # the least int that does not fit a double (rounds to 2**1024)
 FORB = {"Attribute": "obj.attr", "Call": "foo(1)", "Lambda": "(lambda: 1)", "Subscript": "xs[0]", "ListComp": "[i for i in range(3)]", "Set": "{1, 2}",
-        "Dict": "{1: 2}", "CallKw": "abs(x=1)", "Import": "__import__('os')", "Method": "'a'.upper()", "Getattr": "getattr(k, 'real')", "Starred": "max(*xs)"}
+        "Dict": "{1: 2}", "CallKw": "abs(x=1)", "Import": "__import__('os')", "Method": "'a'.upper()", "Getattr": "getattr(k, 'real')", "Starred": "max(*xs)", "Invert": "~5", "MatMult": "(3 @ 2)"}
 STRS = ["", "a", "ab", "12", " 7 ", "x y"]
 
 
@@ -48,20 +51,28 @@ def gen_expr(rng, d, env):
         return x, f"(n {x})"
     k = rng.choice(["bin", "bin", "bin", "un", "and", "or", "cmp", "if", "f", "call", "seq", "forb"])
     if k == "bin":
-        op = rng.choice(["add", "sub", "mul", "floordiv", "mod", "pow", "shl", "shr"])
+        op = rng.choice(["add", "sub", "mul", "floordiv", "mod", "pow", "shl", "shr", "band", "bor", "bxor", "div"])
         a, sa = gen_expr(rng, d - 1, env)
         if op in ("pow", "shl", "shr"):
             n = rng.choice([0, 1, 2, 3, 4])
             b, sb = str(n), f"(c (i {n}))"
             if op == "pow":
                 a, sa = (lambda m: (str(m), f"(c (i {m}))"))(rng.choice([0, 1, 2, 3, 7, 10]))
+                if rng.random() < 0.2:      # negative exponent: a float (or ZeroDivisionError for base 0)
+                    n = rng.choice([1, 2, 3])
+                    b, sb = f"(-{n})", f"(un neg (c (i {n})))"
+        elif op in ("band", "bor", "bxor") and rng.random() < 0.6:
+            a, sa = gen_bitarg(rng)
+            b, sb = gen_bitarg(rng)
         else:
             b, sb = gen_expr(rng, d - 1, env)
-        sym = {"add": "+", "sub": "-", "mul": "*", "floordiv": "//", "mod": "%", "pow": "**", "shl": "<<", "shr": ">>"}[op]
+        sym = {"add": "+", "sub": "-", "mul": "*", "floordiv": "//", "mod": "%", "pow": "**", "shl": "<<", "shr": ">>", "band": "&", "bor": "|", "bxor": "^", "div": "/"}[op]
         return f"({a} {sym} {b})", f"(bin {op} {sa} {sb})"
     if k == "un":
-        op = rng.choice(["pos", "neg", "not"])
+        op = rng.choice(["pos", "neg", "not", "pos", "neg", "not", "inv"])
         a, sa = gen_expr(rng, d - 1, env)
+        if op == "inv":      # `~` is not in `_UN`: an unsupported node, whatever its operand (which is not evaluated)
+            return f"(~{a})", "(forb Invert)"
         return f"({ {'pos': '+', 'neg': '-', 'not': 'not '}[op]}{a})", f"(un {op} {sa})"
     if k in ("and", "or"):
         a, sa = gen_expr(rng, d - 1, env)
@@ -121,6 +132,80 @@ def gen_expr(rng, d, env):
     return FORB[kind], f"(forb {kind})"
 
 
+def gen_bitarg(rng):
+    """a number for `& | ^`: small / byte-sized / negative ints and bools"""
+    r = rng.random()
+    if r < 0.25:
+        b = rng.random() < 0.5
+        return str(b), f"(c (b {'T' if b else 'F'}))"
+    n = rng.choice([0, 1, 2, 3, 5, 6, 7, 12, 85, 170, 255, 256, 1000, 65535])
+    if r < 0.55:
+        return f"(-{n})", f"(un neg (c (i {n})))"
+    return str(n), f"(c (i {n}))"
+
+
+def directed_float_cases():
+    """the acceptance boundary of the float-producing operations: zero divisor / base, and the first magnitude that does not fit a double"""
+    T = FLOAT_LIMIT
+    ci = lambda n: (f"(-{-n})", f"(un neg (c (i {-n})))") if n < 0 else (str(n), f"(c (i {n}))")  # noqa: E731
+    out = []
+    for op, sym, pairs in (("div", "/", [(T, 1), (T - 1, 1), (3 * T, 3), (3 * T - 1, 3), (-3 * T, 3), (3 * T, -3), (-T + 1, -1), (1, 0), (0, 0), (0, 7), (1, T), (7, 2), (-7, 2)]),
+                           ("pow", "**", [(T, -1), (T - 1, -1), (-T, -1), (2, -T), (2, -(T - 1)), (0, -1), (0, -T), (1, -1), (-2, -3)])):
+        for x, y in pairs:
+            (a, sa), (b, sb) = ci(x), ci(y)
+            out.append((f"({a} {sym} {b})", f"(bin {op} {sa} {sb})"))
+    out += [("(True / 2)", "(bin div (c (b T)) (c (i 2)))"), ("(1 / False)", "(bin div (c (i 1)) (c (b F)))"), ("('a' / 2)", f"(bin div (c (s {hexs('a')})) (c (i 2)))"),
+            ("(-(7 / 2))", "(un neg (bin div (c (i 7)) (c (i 2))))"), ("abs(-7 / 2)", "(call abs (bin div (un neg (c (i 7))) (c (i 2))))"),
+            ("(True & False)", "(bin band (c (b T)) (c (b F)))"), ("(True | 2)", "(bin bor (c (b T)) (c (i 2)))"), ("(True ^ True)", "(bin bxor (c (b T)) (c (b T)))"),
+            ("((-5) & (-3))", "(bin band (un neg (c (i 5))) (un neg (c (i 3))))"), ("('a' & 1)", f"(bin band (c (s {hexs('a')})) (c (i 1)))"), ("(~(1 // 0))", "(forb Invert)")]
+    return out
+
+
+def _sx_parse(s):
+    toks = s.replace("(", " ( ").replace(")", " ) ").split()
+    pos = 0
+
+    def rd():
+        nonlocal pos
+        t = toks[pos]
+        pos += 1
+        if t != "(":
+            return t
+        out = []
+        while toks[pos] != ")":
+            out.append(rd())
+        pos += 1
+        return out
+    return rd()
+
+
+def _float_op(t):
+    return isinstance(t, list) and len(t) == 4 and t[0] == "bin" and (t[1] == "div" or (t[1] == "pow" and isinstance(t[3], list) and t[3][:2] == ["un", "neg"]))
+
+
+def _float_free(t):
+    if not isinstance(t, list):
+        return True
+    return not _float_op(t) and all(_float_free(x) for x in t)
+
+
+def float_exact(sx):
+    """is a model answer 'ok float' for this expression a prediction for the whole expression?  Yes when the float-producing operation is the root (under unary + - and
+    abs, which keep a float a float) and nothing below it produces a float: the real evaluator must then return a float.  Elsewhere the float is consumed by an enclosing
+    construct the model does not follow (IEEE arithmetic, truthiness and formatting of floats)."""
+    t = _sx_parse(sx)
+    while isinstance(t, list) and ((t[0] == "un" and t[1] in ("pos", "neg") and len(t) == 3) or (t[:2] == ["call", "abs"] and len(t) == 3)):
+        t = t[2]
+    return _float_op(t) and _float_free(t[2]) and _float_free(t[3])
+
+
+def outcome_relation(model, impl, sx):
+    """'same' | 'diff' | 'float-inner' (model left its value domain below the root: the real outcome is not predicted)"""
+    if model == "ok float" and not float_exact(sx):
+        return "float-inner"
+    return "same" if model == impl else "diff"
+
+
 def gen_scalar(rng, d, env):
     for _ in range(20):
         e, s = gen_expr(rng, d, env)
@@ -138,6 +223,8 @@ def gen_int(rng, d, env):
 
 
 def canon(v):
+    if isinstance(v, float):
+        return "float"      # compared by kind only: the model does not compute with floats
     if isinstance(v, bool):
         return "bT" if v else "bF"
     if isinstance(v, int):
@@ -267,7 +354,7 @@ def run(ctx: Ctx) -> int:
     # ---- (i)
     env_py = {"k": 4, "flag": True, "name": "dev", "lst": [1, 2], "unk": P._ExprStr("unk")}
     env_model = "k=(i 4),flag=(b T),name=(s " + hexs("dev") + "),lst=(l F (i 1) (i 2)),unk=?"
-    cases = [gen_expr(rng, rng.choice([1, 2, 3]), ["k", "flag", "name", "lst", "unk"]) for _ in range(ctx.n(1500, 20000))]
+    cases = [gen_expr(rng, rng.choice([1, 2, 3]), ["k", "flag", "name", "lst", "unk"]) for _ in range(ctx.n(1500, 20000))] + directed_float_cases()
     model = ctx.lean.drive([f"ec|{env_model}|{sx}" for _, sx in cases])
     for (src, sx), m in zip(cases, model):
         try:
@@ -286,7 +373,10 @@ def run(ctx: Ctx) -> int:
         ctx.cov["traces_validated_against_impl"] += 1
         ctx.case(sx, nontrivial=impl.startswith("ok"), sample={"expr": src, "model": m} if len(ctx.cov["samples"]) < 3 and "forb" in sx and impl.startswith("ok") else None)
         ctx.count("eval:" + impl.split(" ")[0] + (":forbidden-present" if "forb" in sx else ""))
-        if m != impl and "other:" not in impl:
+        rel = outcome_relation(m, impl, sx)
+        if m == "ok float":
+            ctx.count("eval:model-float:" + ("root" if rel != "float-inner" else "inner"))
+        if rel == "diff" and "other:" not in impl:
             ctx.tie_diff("tie evalConst (Lang.EC.eval vs _eval_const)", {"expr": src, "sexpr": sx}, m, impl)
     # ---- (ii) audit
     inputs = []
